@@ -147,7 +147,7 @@ var pureExternPrefixes = []string{
 	"github.com/cosmos/cosmos-sdk/x/auth/types.NewModuleAddress",
 	"(github.com/cosmos/cosmos-sdk/x/staking/types.ValidatorI).", "(github.com/cosmos/cosmos-sdk/types.ModuleAccountI).", "(github.com/cosmos/cosmos-sdk/types.AccountI).", "(github.com/cosmos/cosmos-sdk/x/staking/types.Validator).",
 	"github.com/cometbft/cometbft/crypto/tmhash.", "github.com/cometbft/cometbft/crypto/merkle.",
-	"(github.com/cometbft/cometbft/", "(*github.com/cometbft/cometbft/", "encoding/binary.Varint", "encoding/binary.Uvarint", "encoding/binary.PutUvarint",
+	"(github.com/cometbft/cometbft/", "(*github.com/cometbft/cometbft/", "(*github.com/decred/dcrd/dcrec/secp256k1/v4.", "(*math/big.Int).Bytes", "encoding/binary.Varint", "encoding/binary.Uvarint", "encoding/binary.PutUvarint",
 	"(*github.com/bandprotocol/chain/v3/app.BandApp).AppCodec",
 	"(*github.com/cometbft/cometbft/abci/types.ResponseQuery).",
 }
@@ -964,6 +964,8 @@ var extAliases = map[string]struct {
 	"Coins.Sub":      {"(github.com/cosmos/cosmos-sdk/types.Coins).Sub", "sdk.Coins"},
 	"Coins.IsAnyGT":  {"(github.com/cosmos/cosmos-sdk/types.Coins).IsAnyGT", "Bool"},
 	"bytes.Join":     {"bytes.Join", "Bz"},
+	"big.Int.Bytes":  {"(*math/big.Int).Bytes", "Bz"},
+	"PublicKey.X":    {"(*github.com/decred/dcrd/dcrec/secp256k1/v4.PublicKey).X", "Int"},
 	"NewDecCoinsFromCoins": {"github.com/cosmos/cosmos-sdk/types.NewDecCoinsFromCoins", "sdk.DecCoins"},
 	"DecCoins.Sub":   {"(github.com/cosmos/cosmos-sdk/types.DecCoins).Sub", "sdk.DecCoins"},
 	"binary.Varint":  {"encoding/binary.Varint", "Int"},
